@@ -23,7 +23,7 @@ RULE = ('each case = one endpoint (either role) brought to a random connection s
         'MAX_FRAME_SIZE (raised before the streams exist, lowered after) and other limits between the calls; non-trivial = at least one raising call judged; distinct = hash of the '
         'call list with outcomes')
 MINIMA = {'calls_judged': 50000, 'raising_calls_output_checked': 10000, 'lookup_forgotten_judged': 500,
-          'lookup_never_used_judged': 500, 'documented_range_errors': 500, 'setups_with_unacknowledged_data': 500, 'settings_values_beyond_32_bits': 300, 'setups_with_window_size_changed_under_unacknowledged_data': 150, 'header_blocks_within_a_few_octets_of_the_frame_limit': 2000, 'setups_with_frame_size_limit_raised_and_lowered': 300}
+          'lookup_never_used_judged': 500, 'documented_range_errors': 500, 'setups_with_unacknowledged_data': 500, 'settings_values_beyond_32_bits': 300, 'setups_with_a_refused_promise': 100, 'setups_with_window_size_changed_under_unacknowledged_data': 150, 'header_blocks_within_a_few_octets_of_the_frame_limit': 2000, 'setups_with_frame_size_limit_raised_and_lowered': 300}
 BIG = [2 ** 31 - 1, 2 ** 31, 2 ** 31 + 1, 2 ** 32, 2 ** 64]
 
 
@@ -38,6 +38,7 @@ def run_case(idx, rng, tier, rep):
     t = h.t
     live, closed_rem, forgotten = [], [], []
     data_sid = []
+    refused_promises = []
     raised_mfs = False
     if conn_state != 'idle':
         if rng.random() < 0.3:
@@ -47,6 +48,15 @@ def run_case(idx, rng, tier, rep):
             st = rng.choice(['open', 'open_resp', 'hc_remote', 'hc_local', 'closed_es', 'closed_rst_sent', 'closed_rst_recv'])
             sid = h.reach(st)
             (closed_rem if st.startswith('closed') else live).append(sid)
+            if st == 'closed_rst_sent' and e_client and rng.random() < 0.6:
+                # a promise that was on its way when E reset the stream: refused by the library itself, and its id is a used,
+                # closed one from then on
+                pid = h.peer_next
+                h.peer_next += 2
+                r0 = h.send(wire.build_push_promise(sid, pid, hb(REQ)))
+                if r0.ok and any(f.type == wire.RST_STREAM and f.stream_id == pid for f in r0.frames):
+                    refused_promises.append(pid)
+                    rep.count('setups_with_a_refused_promise')
         if not e_client and live and rng.random() < 0.4:
             par = [s for s in live if s % 2 == 1 and h.c.streams[s].open]
             if par:
@@ -86,6 +96,7 @@ def run_case(idx, rng, tier, rep):
             h.send(wire.build_goaway(0, 0))
         elif conn_state == 'closed_error':
             h.send(wire.build_data(0, b'x'))
+    forgotten = forgotten + refused_promises
     # watermarks per parity from what was actually used
     used_odd = max([s for s in live + closed_rem + forgotten if s % 2 == 1] or [0])
     used_even = max([s for s in live + closed_rem + forgotten if s % 2 == 0] or [0])
@@ -178,7 +189,12 @@ def run_case(idx, rng, tier, rep):
         if op == 'send_headers':
             hs = rng.choice([REQ, RESP, [], [(b'x-trailer', b'1')], [(b':status', b'100')], scen.REQ_POST,
                              [(b'x-a', b'1')] + REQ, REQ + [(b'connection', b'close')], [(':method', 'GET')],
-                             REQ + [(b'x-big', b'v' * rng.choice([16300, 16384, 16400, 40000]))]])
+                             REQ + [(b'x-big', b'v' * rng.choice([16300, 16384, 16400, 40000]))],
+                             # pseudo-header fields of the wrong kind, one or several, also unknown and repeated ones
+                             [(b':status', b'200'), (b':method', b'GET'), (b':path', b'/')],
+                             [(b':status', b'200'), (b':scheme', b'https'), (b':authority', b'a'), (b':protocol', b'x')],
+                             REQ + [(b':status', b'200')], [(b':status', b'200'), (b':status', b'404'), (b':x', b'y')],
+                             [(b':method', b'GET'), (b':method', b'POST'), (b':scheme', b'https'), (b':path', b'/'), (b':bogus', b'1'), (b':other', b'2')]])
             kw = {}
             if rng.random() < 0.35:
                 kw['priority_weight'] = rng.choice([None, 0, 1, 16, 256, 257, -1, 2 ** 32])
